@@ -760,15 +760,137 @@ func ruleVD10(c *Ctx) {
 		}
 		c.check(okAll, cn, construct, pos, "collision sets are the loaded graph's ids (extended by ids minted in this command) and its tombstones", why+": a duplicate or pruned id can be issued")
 	}
-	// a command that mints several ids: each one is in the next mint's collision set before that mint runs
+	// what a creating command records as the new item's id is a minted id; an id from anywhere else (a caller-chosen
+	// --id, an imported one) must have been looked up, and found absent, in the live ids AND in the tombstones
+	for _, em := range c.emissions() {
+		if !(em.has("new_task") || em.has("new_epic")) || c.isReplayOrCompact(em.Fn) {
+			continue
+		}
+		idv := em.Fields["ID"]
+		if idv == nil {
+			continue
+		}
+		f := em.Fn
+		t := em.Types[len(em.Types)-1]
+		type leaf struct {
+			v    ssa.Value
+			at   *ssa.BasicBlock
+			into *ssa.BasicBlock // the block of the phi this value enters over the edge at->into, nil for a direct use
+		}
+		var leaves []leaf
+		seenL := map[ssa.Value]bool{}
+		var expand func(v ssa.Value, at *ssa.BasicBlock, d int)
+		expand = func(v ssa.Value, at *ssa.BasicBlock, d int) {
+			v = strip(v)
+			if seenL[v] || d > 6 {
+				return
+			}
+			seenL[v] = true
+			if ph, ok := v.(*ssa.Phi); ok {
+				for i, e := range ph.Edges {
+					if _, inner := strip(e).(*ssa.Phi); inner {
+						expand(e, ph.Block().Preds[i], d+1)
+						continue
+					}
+					if !seenL[strip(e)] {
+						seenL[strip(e)] = true
+						leaves = append(leaves, leaf{strip(e), ph.Block().Preds[i], ph.Block()})
+					}
+				}
+				return
+			}
+			leaves = append(leaves, leaf{v, at, nil})
+		}
+		expand(idv, em.Call.Block(), 0)
+		bad := ""
+		for _, lf := range leaves {
+			if c.mintedInCallback(lf.v, ns) {
+				continue
+			}
+			if lf.v.Parent() != f {
+				bad = "the id (" + c.canon(lf.v) + ") does not come from the id generator and its origin is outside this function"
+				break
+			}
+			for _, want := range []string{"Tasks", "Tombstones"} {
+				neg := edgesWhere(f, func(a Atom, holds bool) bool {
+					var lk *ssa.Lookup
+					switch {
+					case a.Kind == "bool" && !holds:
+						if ex, ok := strip(a.X).(*ssa.Extract); ok && ex.Index == 1 {
+							lk, _ = ex.Tuple.(*ssa.Lookup)
+						}
+					case a.Kind == "nil" && holds:
+						lk, _ = strip(a.X).(*ssa.Lookup)
+					}
+					if lk == nil || len(a.Env) > 0 {
+						return false
+					}
+					if _, nme, ok := fieldLoad(resolve(lk.X)); !ok || nme != want || !fromLoaded(resolve(lk.X)) {
+						return false
+					}
+					return strip(lk.Index) == lf.v || c.canon(lk.Index) == c.canon(lf.v)
+				})
+				viaEdge := false
+				for e := range neg {
+					if lf.into != nil && e.From == lf.at && e.To() == lf.into {
+						viaEdge = true
+					}
+				}
+				if len(neg) == 0 || !(viaEdge || mustPassEdges(f, lf.at, neg)) {
+					bad = "the id can be " + c.canon(lf.v) + ", which does not come from the id generator and is not known to be absent from graph." + want
+					if want == "Tombstones" {
+						bad += ": a pruned id can be issued again, and replay ignores every event of a tombstoned id - the acknowledged create is lost"
+					}
+					break
+				}
+			}
+			if bad != "" {
+				break
+			}
+		}
+		c.check(bad == "", c.Name(f), em.construct(t)+"|id-is-fresh", c.Pos(em.Call.Pos()), "the recorded id is minted by the generator (or checked absent from live ids and tombstones)", bad)
+	}
+	// a command that mints several ids: each one is in the next mint's collision set before that mint runs. An id
+	// allocator (a function or method that draws an id from the generator and hands it back) counts as a mint at its
+	// own call sites; when it remembers what it issued (`issued[id] = struct{}{}` behind a negative lookup, in a set
+	// that lives as long as the allocator object) two draws from the same object cannot collide.
+	wrappers := c.mintWrappers(ns)
+	liveArg := func(m *ssa.Call) ssa.Value {
+		callee := calleeOf(&m.Call)
+		if w := wrappers[callee]; w != nil {
+			if w.LiveParam >= 0 && w.LiveParam < len(m.Call.Args) {
+				return m.Call.Args[w.LiveParam]
+			}
+			return nil
+		}
+		for k, prm := range ns.Params {
+			if _, isMap := prm.Type().Underlying().(*types.Map); isMap && !strings.Contains(prm.Type().String(), "TombstoneInfo") && k < len(m.Call.Args) {
+				return m.Call.Args[k]
+			}
+		}
+		return nil
+	}
 	byFn := map[*ssa.Function][]*ssa.Call{}
 	var fnOrder []*ssa.Function
-	for _, cs := range c.callers[ns] {
+	addSite := func(cs callSite) {
 		if cv, ok := cs.Call.(*ssa.Call); ok {
 			if byFn[cs.Fn] == nil {
 				fnOrder = append(fnOrder, cs.Fn)
 			}
 			byFn[cs.Fn] = append(byFn[cs.Fn], cv)
+		}
+	}
+	for _, cs := range c.callers[ns] {
+		addSite(cs)
+	}
+	var wOrder []*ssa.Function
+	for w := range wrappers {
+		wOrder = append(wOrder, w)
+	}
+	sort.Slice(wOrder, func(i, j int) bool { return c.Name(wOrder[i]) < c.Name(wOrder[j]) })
+	for _, w := range wOrder {
+		for _, cs := range c.callers[w] {
+			addSite(cs)
 		}
 	}
 	for _, f := range fnOrder {
@@ -787,14 +909,28 @@ func ruleVD10(c *Ctx) {
 				if !after {
 					continue
 				}
-				// the live-id set handed to m2
-				var set ssa.Value
-				for k, prm := range ns.Params {
-					if _, isMap := prm.Type().Underlying().(*types.Map); isMap && !strings.Contains(prm.Type().String(), "TombstoneInfo") && k < len(m2.Call.Args) {
-						set = m2.Call.Args[k]
-					}
+				construct := fmt.Sprintf("minted-id-excluded mint#%d->mint#%d", i+1, j+1)
+				// inside an allocator: coming round again means the id just drawn was turned down (it goes nowhere but
+				// into the lookup, the remembered set and the return)
+				if w := wrappers[f]; w != nil && m == m2 && m == w.Mint && w.OnlyReturned {
+					c.ok(c.Name(f), construct, c.Pos(m2.Pos()), "the allocator's retry loop discards the id it turned down; an id leaves only through the return")
+					continue
 				}
+				// two draws from one remembering allocator object
+				w1, w2 := wrappers[calleeOf(&m.Call)], wrappers[calleeOf(&m2.Call)]
+				if w1 != nil && w1 == w2 && w1.SelfExcl {
+					same, why := c.sameAllocatorObject(f, m, m2, w1)
+					c.check(same, c.Name(f), construct, c.Pos(m2.Pos()),
+						"both ids are drawn from the same allocator object, which records every id it issues ("+w1.Why+") and turns down a recorded one",
+						"the ids are drawn through "+c.Name(w1.Fn)+", which records what it issued, but "+why+": the same command can issue one id twice")
+					continue
+				}
+				// the live-id set handed to m2
+				set := liveArg(m2)
 				if set == nil {
+					if w2 != nil {
+						c.bad(c.Name(f), construct, c.Pos(m2.Pos()), "the id minted at "+c.Pos(m.Pos())+" is not excluded when "+c.Name(w2.Fn)+" draws the next one ("+w2.Why+"): the same command can issue one id twice (an epic and its task, two tasks of one plan)")
+					}
 					continue
 				}
 				var ublocks = map[*ssa.BasicBlock]bool{}
@@ -828,12 +964,309 @@ func ruleVD10(c *Ctx) {
 						okRec = false
 					}
 				}
-				c.check(okRec, c.Name(f), fmt.Sprintf("minted-id-excluded mint#%d->mint#%d", i+1, j+1), c.Pos(m2.Pos()),
+				c.check(okRec, c.Name(f), construct, c.Pos(m2.Pos()),
 					"the id minted at "+c.Pos(m.Pos())+" is entered into this mint's collision set on every path between the two",
 					"the id minted at "+c.Pos(m.Pos())+" is not in the collision set ("+c.canon(set)+") when this id is drawn: the same command can issue one id twice (an epic and its task, two tasks of one plan)")
 			}
 		}
 	}
+}
+
+// mintWrapper: an id allocator - a named function that draws an id from the generator (one call site) and returns it.
+type mintWrapper struct {
+	Fn           *ssa.Function
+	Mint         *ssa.Call
+	LiveParam    int    // the wrapper's parameter handed on as the generator's live-id set, -1 if none
+	OnlyReturned bool   // the drawn id is used for nothing but lookups, set insertions and the return
+	SelfExcl     bool   // every issued id is recorded in a set that outlives the call and a recorded id is turned down
+	ObjParam     int    // the parameter (receiver) holding that set
+	ObjField     string // the field of the receiver, "" when the parameter is the set itself
+	Why          string
+}
+
+func (c *Ctx) mintWrappers(ns *ssa.Function) map[*ssa.Function]*mintWrapper {
+	out := map[*ssa.Function]*mintWrapper{}
+	perFn := map[*ssa.Function][]*ssa.Call{}
+	for _, cs := range c.callers[ns] {
+		if cv, ok := cs.Call.(*ssa.Call); ok {
+			perFn[cs.Fn] = append(perFn[cs.Fn], cv)
+		}
+	}
+	for w, calls := range perFn {
+		if len(calls) != 1 || w.Parent() != nil || w == ns || w.Signature.Results().Len() == 0 || w.Signature.Results().At(0).Type().Underlying().String() != "string" {
+			continue
+		}
+		m := calls[0]
+		hands := false
+		okRets := true
+		var succ []*ssa.Return
+		for _, r := range returnsOf(w) {
+			if r.Block().Comment == "recover" || len(r.Results) == 0 {
+				continue
+			}
+			if failureConvention(r, 0) {
+				continue
+			}
+			if derivesFrom(returnedValue(r, 0), m) {
+				hands = true
+				succ = append(succ, r)
+				continue
+			}
+			okRets = false
+		}
+		if !hands || !okRets {
+			continue
+		}
+		mw := &mintWrapper{Fn: w, Mint: m, LiveParam: -1, ObjParam: -1}
+		for k, prm := range ns.Params {
+			if _, isMap := prm.Type().Underlying().(*types.Map); isMap && !strings.Contains(prm.Type().String(), "TombstoneInfo") && k < len(m.Call.Args) {
+				if p, ok := resolve(m.Call.Args[k]).(*ssa.Parameter); ok && p.Parent() == w {
+					mw.LiveParam = paramIndex(p)
+				}
+			}
+		}
+		// what becomes of the id
+		mw.OnlyReturned = true
+		var idVals []ssa.Value
+		if m.Referrers() != nil {
+			for _, r := range *m.Referrers() {
+				if ex, ok := r.(*ssa.Extract); ok && ex.Index == 0 {
+					idVals = append(idVals, ex)
+				}
+			}
+		}
+		if len(idVals) == 0 {
+			idVals = []ssa.Value{m}
+		}
+		seen := map[ssa.Value]bool{}
+		var uses func(v ssa.Value)
+		uses = func(v ssa.Value) {
+			if seen[v] || v.Referrers() == nil {
+				return
+			}
+			seen[v] = true
+			for _, r := range *v.Referrers() {
+				switch x := r.(type) {
+				case *ssa.DebugRef, *ssa.Return, *ssa.Lookup:
+				case *ssa.MapUpdate:
+					if x.Key != v {
+						mw.OnlyReturned = false
+					}
+				case *ssa.Phi:
+					uses(x)
+				case *ssa.Store:
+					if al, ok := x.Addr.(*ssa.Alloc); ok && x.Val == v && !al.Heap {
+						for _, lr := range *al.Referrers() {
+							if ld, ok := lr.(*ssa.UnOp); ok {
+								uses(ld)
+							}
+						}
+					} else {
+						mw.OnlyReturned = false
+					}
+				default:
+					mw.OnlyReturned = false
+				}
+			}
+		}
+		for _, v := range idVals {
+			uses(v)
+		}
+		// does it remember what it issued?
+		var whyNot []string
+		eachInstr(w, func(r instrRef) {
+			mu, ok := r.In.(*ssa.MapUpdate)
+			if !ok || mw.SelfExcl {
+				return
+			}
+			if cl, idx := callOf(resolve(mu.Key)); cl != m || idx > 0 {
+				return
+			}
+			pi, field, persistent, why := c.persistentSetOf(w, mu.Map)
+			if !persistent {
+				whyNot = append(whyNot, why)
+				return
+			}
+			// recorded on every way out with the id
+			for _, r := range succ {
+				if r.Block() != mu.Block() && reach(m.Block(), nil, map[*ssa.BasicBlock]bool{mu.Block(): true})[r.Block()] {
+					whyNot = append(whyNot, "a return hands the id out without recording it")
+					return
+				}
+			}
+			// a recorded id is turned down: the set is the generator's own live-id set, or a negative lookup precedes
+			rejects := false
+			for k, prm := range ns.Params {
+				if _, isMap := prm.Type().Underlying().(*types.Map); isMap && k < len(m.Call.Args) && c.canon(m.Call.Args[k]) == c.canon(mu.Map) && !strings.Contains(prm.Type().String(), "TombstoneInfo") {
+					rejects = true
+				}
+			}
+			if !rejects {
+				neg := edgesWhere(w, func(a Atom, holds bool) bool {
+					if a.Kind != "bool" || holds || len(a.Env) > 0 {
+						return false
+					}
+					var lk *ssa.Lookup
+					switch x := strip(a.X).(type) {
+					case *ssa.Extract:
+						if l, ok := x.Tuple.(*ssa.Lookup); ok && x.Index == 1 {
+							lk = l
+						}
+					case *ssa.Lookup:
+						lk = x
+					}
+					if lk == nil || c.canon(lk.X) != c.canon(mu.Map) {
+						return false
+					}
+					cl, idx := callOf(resolve(lk.Index))
+					return cl == m && idx <= 0
+				})
+				rejects = len(neg) > 0
+				for _, r := range succ {
+					if !mustPassEdges(w, r.Block(), neg) {
+						rejects = false
+					}
+				}
+				if !rejects {
+					whyNot = append(whyNot, "an id already in the remembered set is not turned down before it is returned")
+				}
+			}
+			if rejects {
+				mw.SelfExcl, mw.ObjParam, mw.ObjField = true, pi, field
+				mw.Why = "the set " + c.canon(mu.Map)
+			}
+		})
+		if !mw.SelfExcl {
+			mw.Why = "it keeps no lasting record of the ids it issued"
+			if len(whyNot) > 0 {
+				mw.Why = strings.Join(whyNot, "; ")
+			}
+		}
+		out[w] = mw
+	}
+	return out
+}
+
+// failureConvention: the return hands back the zero value in result i together with an error that is not the nil constant.
+func failureConvention(r *ssa.Return, i int) bool {
+	n := len(r.Results)
+	if n < 2 || i >= n-1 || !isErrorType(r.Results[n-1]) {
+		return false
+	}
+	if isNilConst(returnedValue(r, n-1)) {
+		return false
+	}
+	k, ok := strip(returnedValue(r, i)).(*ssa.Const)
+	if !ok {
+		return false
+	}
+	if k.Value == nil {
+		return true
+	}
+	s := k.Value.ExactString()
+	return s == `""` || s == "0" || s == "false"
+}
+
+// persistentSetOf: the map value is read from something that outlives one call of w: a field of w's pointer receiver or
+// parameter, a field of a by-value receiver that w itself never assigns (the map header is shared with the caller's
+// copy), or a map parameter.
+func (c *Ctx) persistentSetOf(w *ssa.Function, m ssa.Value) (param int, field string, ok bool, why string) {
+	v := strip(m)
+	if p, isP := v.(*ssa.Parameter); isP && p.Parent() == w {
+		return paramIndex(p), "", true, ""
+	}
+	switch x := v.(type) {
+	case *ssa.Field:
+		if p, isP := resolve(x.X).(*ssa.Parameter); isP && p.Parent() == w {
+			return paramIndex(p), fieldName(p.Type(), x.Field), true, ""
+		}
+	case *ssa.UnOp:
+		fa, isFA := x.X.(*ssa.FieldAddr)
+		if x.Op != token.MUL || !isFA {
+			break
+		}
+		name := fieldName(fa.X.Type(), fa.Field)
+		base := fa.X
+		if p, isP := resolve(base).(*ssa.Parameter); isP && p.Parent() == w {
+			if _, isPtr := p.Type().Underlying().(*types.Pointer); isPtr {
+				return paramIndex(p), name, true, ""
+			}
+		}
+		// the spilled copy of a by-value receiver
+		if al, isAl := base.(*ssa.Alloc); isAl {
+			var from *ssa.Parameter
+			assigned := false
+			for _, r := range *al.Referrers() {
+				switch y := r.(type) {
+				case *ssa.Store:
+					if y.Addr == ssa.Value(al) {
+						if p, isP := y.Val.(*ssa.Parameter); isP && from == nil {
+							from = p
+						} else {
+							assigned = true
+						}
+					}
+				case *ssa.FieldAddr:
+					if y.Field != fa.Field || y.Referrers() == nil {
+						continue
+					}
+					for _, u := range *y.Referrers() {
+						if st, isSt := u.(*ssa.Store); isSt && st.Addr == ssa.Value(y) {
+							assigned = true
+						}
+					}
+				}
+			}
+			if from != nil && from.Parent() == w {
+				if assigned {
+					return -1, "", false, "the set it records ids in (" + name + ") is assigned inside " + c.Name(w) + " on its by-value receiver: the assignment is made to a copy and forgotten when the call returns"
+				}
+				return paramIndex(from), name, true, ""
+			}
+		}
+	}
+	return -1, "", false, "the set it records ids in (" + c.canon(m) + ") does not outlive the call"
+}
+
+// sameAllocatorObject: the two calls draw from the same allocator object, created outside any loop that joins them.
+func (c *Ctx) sameAllocatorObject(f *ssa.Function, m, m2 *ssa.Call, w *mintWrapper) (bool, string) {
+	if w.ObjParam < 0 || w.ObjParam >= len(m.Call.Args) || w.ObjParam >= len(m2.Call.Args) {
+		return false, "the allocator object is not identifiable at the call"
+	}
+	obj := func(v ssa.Value) ssa.Value {
+		v = strip(v)
+		if u, ok := v.(*ssa.UnOp); ok && u.Op == token.MUL {
+			if al, ok := u.X.(*ssa.Alloc); ok {
+				return al
+			}
+		}
+		return resolve(v)
+	}
+	a, b := obj(m.Call.Args[w.ObjParam]), obj(m2.Call.Args[w.ObjParam])
+	if a != b && c.canon(a) != c.canon(b) {
+		return false, "the two draws use different allocator objects (" + c.canon(a) + " and " + c.canon(b) + ")"
+	}
+	if in, ok := a.(ssa.Instruction); ok && in.Block() != nil && in.Parent() == f && inCycle(in.Block()) {
+		return false, "the allocator object is created anew inside the loop, so it has forgotten the ids of earlier rounds"
+	}
+	// a by-value allocator whose set field is (re)assigned between the draws starts from an empty record
+	if al, ok := a.(*ssa.Alloc); ok && w.ObjField != "" {
+		n := 0
+		for _, r := range *al.Referrers() {
+			if fa, ok := r.(*ssa.FieldAddr); ok && fieldName(fa.X.Type(), fa.Field) == w.ObjField && fa.Referrers() != nil {
+				for _, u := range *fa.Referrers() {
+					if st, ok := u.(*ssa.Store); ok && st.Addr == ssa.Value(fa) {
+						n++
+						if inCycle(st.Block()) {
+							return false, "the allocator's record (" + w.ObjField + ") is reset inside the loop"
+						}
+					}
+				}
+			}
+		}
+		_ = n
+	}
+	return true, ""
 }
 
 // ------------------------------------------------------------------ VD11
